@@ -3,7 +3,9 @@ arbitrarily: spaces, tabs, newlines, blank-line runs; own-line and end-of-line c
 tree-sitter, the real CST is converted to the model's concrete syntax, and inside Coq we check, per document:
 tiling (text of the converted tree = source), model round trip = implementation output, formatter spec =
 implementation output, text of the canonicalised tree = implementation output, the canonicalised tree satisfies
-`canonical_file`, and — for canonical inputs — that `canonical_file` holds of the input and the output is the input.
+`canonical_file`, for canonical inputs that `canonical_file` holds of the input and the output is the input, and that the
+implementation's output, parsed again by tree-sitter and converted, IS `canon_file f` (the ts_stable hypothesis of the
+end-to-end theorems in F0.P20, validated on every case).
 The spec-level comparisons are required inside the decidable domain guard wf_fileb (the hypothesis of the theorems).
 usage: f0_corr.py SEED N OUTDIR PREFIX"""
 import json, os, random, re, sys
@@ -70,7 +72,7 @@ class Conv:
             items.append('(%s, %s)' % (q(self.gap(prev_end, c.start_byte)), self.node(c))); prev_end = c.end_byte
         return '{| f_children := [%s]; f_tail := %s |}' % ('; '.join(items), q(self.gap(prev_end, root.end_byte)))
 R = random.Random(seed); G = DocGen2(R); R2 = random.Random(seed + 1000)
-cases, stats, samples = [], {'canonical_inputs': 0, 'perturbed_inputs': 0, 'skipped_outside_fragment': 0, 'fixed_points': 0}, []
+cases, stats, samples = [], {'canonical_inputs': 0, 'perturbed_inputs': 0, 'skipped_outside_fragment': 0, 'fixed_points': 0, 'output_outside_fragment': 0}, []
 while len(cases) < N:
     d = G.doc(); pert = R2.random() < 0.75
     p = perturb(R2, d, parse_to_ast) if pert else d
@@ -78,23 +80,26 @@ while len(cases) < N:
     try: c = Conv(p).file(parse_to_ast(p))
     except Unsupported: stats['skipped_outside_fragment'] += 1; continue
     out = parse(p).rebuild()
+    try: c_out = 'Some (%s)' % Conv(out).file(parse_to_ast(out))      # the re-parsed output, for the ts_stable hypothesis of F0.P20
+    except Unsupported: c_out = 'None'; stats['output_outside_fragment'] += 1
     stats['perturbed_inputs' if pert else 'canonical_inputs'] += 1
     stats['fixed_points'] += out == p
-    cases.append('(%s, %s, %s, %s)' % (q(p), c, q(out), 'true' if out == p else 'false'))
+    cases.append('(%s, %s, %s, %s, %s)' % (q(p), c, q(out), 'true' if out == p else 'false', c_out))
     if len(samples) < 3: samples.append({'source': p, 'implementation_output': out})
-HDR = ('From Coq Require Import List Ascii String Bool. Import ListNotations.\nFrom F0 Require Import F0s Specs Canon Canonize P18.\nOpen Scope string_scope.\nOpen Scope bool_scope.\n'
+HDR = ('From Coq Require Import List Ascii String Bool. Import ListNotations.\nFrom F0 Require Import F0s Specs Canon Canonize P18 P20.\nOpen Scope string_scope.\nOpen Scope bool_scope.\n'
        'Definition eqs (a b : str) : bool := if list_eq_dec ascii_dec a b then true else false.\n')
-OK = ("Definition ok (c : str * cfile * str * bool) : bool :=\n  let '(src, f, expected, fixed) := c in\n"
+OK = ("Definition ok (c : str * cfile * str * bool * option cfile) : bool :=\n  let '(src, f, expected, fixed, reparsed) := c in\n"
       "  eqs (ftext f) src && eqs (roundtrip f) expected &&\n"
       "  (negb (wf_fileb f) || (eqs (spec_file f) expected && eqs (ftext (canon_file f)) expected && canonical_file (canon_file f)\n"
-      "                         && Bool.eqb (canonical_file f) fixed)).\n")
+      "                         && Bool.eqb (canonical_file f) fixed\n"
+      "                         && match reparsed with Some f' => cfile_eqb (canon_file f) f' && eqs (ftext f') expected | None => false end)).\n")
 # the guard count is printed by each shard as a second answer
 import common
 common.BAD = common.BAD
-write_shards(outdir, prefix, HDR, 'str * cfile * str * bool', OK, cases, 16)
+write_shards(outdir, prefix, HDR, 'str * cfile * str * bool * option cfile', OK, cases, 16)
 for fn in os.listdir(outdir):
     if re.fullmatch(re.escape(prefix) + r'_\d+\.v', fn):
-        open(os.path.join(outdir, fn), 'a').write('Eval vm_compute in ("inside_guard", List.length (filter (fun c => wf_fileb (snd (fst (fst c)))) cases)).\n')
+        open(os.path.join(outdir, fn), 'a').write('Eval vm_compute in ("inside_guard", List.length (filter (fun c => wf_fileb (snd (fst (fst (fst c))))) cases)).\n')
 json.dump({'stats': stats, 'keys': [], 'distinct_count': len(set(cases)),
            'rule': 'F0 documents from the grammar-directed generator (sets, rec, lists, attrpath and quoted names, opaque atoms, comments of every single-line spelling, blank lines, every final-newline situation), 75% with every inter-token gap rewritten (spaces, tabs, newlines, blank runs); converted from the REAL tree-sitter CST; distinct = distinct sources',
            'samples': samples}, open(os.path.join(outdir, prefix + '_summary.json'), 'w'))
